@@ -366,8 +366,8 @@ def make_scripts(tier, seed):
     r = random.Random(seed * 7919 + 18)
     quick = tier == "quick"
     prefixes, gst = V.gen("SeqGen.tla", "SeqGen_sched6.cfg" if quick else "SeqGen_sched8.cfg", "C18")
-    n_pref = 1500 if quick else 4 * 6561
-    n_rand = 1500 if quick else 70000
+    n_pref = 1500 if quick else 3 * 6561
+    n_rand = 1500 if quick else 40000
     chosen = prefixes if len(prefixes) <= n_pref else r.sample(prefixes, n_pref)
     scripts = []
     while len(scripts) < n_pref:
@@ -427,5 +427,9 @@ if __name__ == "__main__":
     res = check_C18(tier, seed)
     for v in res["violations"][:40]:
         print("VIOLATION", v["clauses"], v["key"], v.get("detail"))
-    print("violations=%d evaluations=%d lines=%d" % (len(res["violations"]), res["coverage"]["evaluations"],
-                                                      res["coverage"]["trace_lines_validated"]))
+    names = {}
+    for k in res["known"]:
+        for nm in k["names"]:
+            names[nm] = names.get(nm, 0) + 1
+    print("violations=%d evaluations=%d lines=%d known=%s" % (len(res["violations"]), res["coverage"]["evaluations"],
+                                                               res["coverage"]["trace_lines_validated"], names))
